@@ -435,6 +435,9 @@ def cross_process(out, tier, seed):
             else:
                 results[hs] = p.stdout.decode().strip().split("\n")[-1]
             out.case("cross-process", ("%d:%d" % (scen, hs)).encode(), sample={"scenario": scen, "hashseed": env["PYTHONHASHSEED"], "canonical": results[hs][:80]})
+        bad = [v for v in results.values() if "BAD-CARRIED" in v]
+        if bad:
+            out.violations.append({"oracle": "a switch referred to by number keeps that number in the saved triggers", "scenario": scen, "got": bad[0][-80:]})
         vals = set(results.values())
         if len(vals) != 1:
             a, b = sorted(vals)[:2]
